@@ -22,3 +22,33 @@ func VerifC07_RecordStartAnyBytes() {
 		sym.Reach("rejected")
 	}
 }
+
+// verifRefRecordStart is the documented shape: at least 32 bytes, "<", one to
+// three decimal digits (PRIVAL 0..999 syntactically), ">", version "1", space.
+func verifRefRecordStart(s []byte) bool {
+	if len(s) < 32 || s[0] != '<' {
+		return false
+	}
+	d := 0
+	for d < 3 && s[1+d] >= '0' && s[1+d] <= '9' {
+		d++
+	}
+	return d >= 1 && s[1+d] == '>' && s[2+d] == '1' && s[3+d] == ' '
+}
+
+// VerifC08_RecordStartExact: framing rests on the record-start test: it must
+// accept exactly the documented shape - every priority (0 and leading zeros
+// included), every digit count - for lines of 0..36 bytes over all byte values.
+//
+//verif:reach accepted rejected
+func VerifC08_RecordStartExact() {
+	n := sym.Choice("len", 37)
+	s := sym.Bytes("line", n, n)
+	ok := TestRecordStart(s)
+	sym.Assert(ok == verifRefRecordStart(s), "the record-start test accepts exactly '<' 1-3 digits '>1 ' on lines of at least 32 bytes")
+	if ok {
+		sym.Reach("accepted")
+	} else {
+		sym.Reach("rejected")
+	}
+}
